@@ -71,6 +71,9 @@ func Quiet() {
 		}
 		log15.Root().SetHandler(log15.DiscardHandler())
 		common.Clock = Clock
+		// live-network regime: the chain is past the height from which a receive must be made by the account the send
+		// was addressed to (on test chains the default constant would leave the legacy regime on forever)
+		verifier.ReceiverMismatchEnforcementHeight = 0
 		// silence fmt.Printf noise from chain.Init ("Initialized NoM ...") by redirecting stdout of the repo is not
 		// possible per call; workers therefore write their results on a dedicated fd (see xs package).
 	})
@@ -640,4 +643,45 @@ func (n *Node) ConsensusDigest(slots int) string {
 		}
 	}
 	return sb.String()
+}
+
+// ProduceMomentumOnly makes the elected pillar produce and insert the next momentum exactly as
+// pillar.worker.generateMomentum + broadcaster.CreateMomentum do, but without the contract auto-receive and update
+// phases that follow in a full producer event (a pillar whose task was stopped after broadcasting its momentum).
+func (n *Node) ProduceMomentumOnly(skip int) error {
+	t := n.NextSlot(skip)
+	expected, err := n.Cons.GetMomentumProducer(t)
+	if err != nil {
+		return err
+	}
+	var key *wallet.KeyPair
+	for _, k := range n.Opts.PillarKeys {
+		if k.Address == *expected {
+			key = k
+		}
+	}
+	if key == nil {
+		return fmt.Errorf("no key for elected producer %v", expected)
+	}
+	Clock.Set(t)
+	insert := n.Chain.AcquireInsert("vnode momentum-only generate")
+	st := n.Chain.GetFrontierMomentumStore()
+	blocks := n.Chain.GetNewMomentumContent()
+	prev, err := st.GetFrontierMomentum()
+	if err != nil {
+		insert.Unlock()
+		return err
+	}
+	m := &nom.Momentum{ChainIdentifier: n.Chain.ChainIdentifier(), PreviousHash: prev.Hash, Height: prev.Height + 1,
+		TimestampUnix: uint64(t.Unix()), Content: nom.NewMomentumContent(blocks), Version: 1}
+	m.EnsureCache()
+	tx, err := n.Sup.GenerateMomentum(&nom.DetailedMomentum{Momentum: m, AccountBlocks: blocks}, key.Signer)
+	insert.Unlock()
+	if err != nil {
+		return err
+	}
+	insert = n.Chain.AcquireInsert("vnode momentum-only insert")
+	err = n.Chain.AddMomentumTransaction(insert, tx)
+	insert.Unlock()
+	return err
 }
